@@ -16,13 +16,13 @@ import (
 )
 
 type KnownFinding struct {
-	Property   string `json:"property"`
-	Obligation string `json:"obligation"`
-	Status     string `json:"status"` // open | fixed
-	Commit     string `json:"commit,omitempty"`
-	What       string `json:"what"`
-	Witness    string `json:"witness,omitempty"`
-	Residual   string `json:"residual,omitempty"`
+	Property    string      `json:"property"`
+	Obligation  string      `json:"obligation"`
+	Status      string      `json:"status"` // open | fixed
+	Commit      string      `json:"commit,omitempty"`
+	What        string      `json:"what"`
+	Witness     string      `json:"witness,omitempty"`
+	Residual    string      `json:"residual,omitempty"`
 	WitnessTest *ReplaySpec `json:"witness_test,omitempty"` // a fixed witness run on the real code: it must still fail
 }
 
